@@ -10,7 +10,8 @@ CHECK = {
                             "scenario_OnlineVariance", "scenario_CheckupEqualTo", "scenario_CheckupGreaterThan",
                             "scenario_CheckupLowerThan", "scenario_CheckupReliability", "scenario_CheckupEqualToRate",
                             "scenario_CheckupGreaterThanRate", "scenario_RateMonitoring", "scenario_RateMonitoring_slow_source",
-                            "scenario_CheckupEqualToRate_slow_source", "scenario_CheckupGreaterThanRate_slow_source", "readers_1", "readers_8",
+                            "scenario_CheckupEqualToRate_slow_source", "scenario_CheckupGreaterThanRate_slow_source", "scenario_OnlineAverage_concurrent_reset",
+                            "scenario_OnlineVariance_concurrent_reset", "readers_1", "readers_8",
                             "producers_4", "with_injected_yields", "no_injected_yields"],
     "required_counters": ["scenario_runs_with_overlap", "reader_observed_value_changes", "hook.Checkup::setDiagnostic_",
                           "hook.CheckupRate::evaluate", "hook.CheckupRate::heartBeatCallback",
